@@ -240,20 +240,24 @@ def generate(rng, depth=2, n_files=14, symlinks=True, outside_links=False, big=F
     mk = marker("MK", tag, twin)
     t.add_file(twin, content(rng, 70, mk, "text"))
     t.markers[mk] = twin
-    for name in (twin, "/only-nested.txt", "/only-nested.html"):
-        up = nested + name
+    if not any(ch in t.root for ch in "#?%"):   # every file of the tree has to be addressable by a raw request target
+        for name in (twin, "/only-nested.txt", "/only-nested.html"):
+            up = nested + name
+            mk = marker("MK", tag, up)
+            t.add_file(up, content(rng, 90, mk, "text"))
+            t.markers[mk] = up
+        d = t.root
+        while d != "/" and len(d) > 1:
+            t.dirs.add(d)
+            d = os.path.dirname(d)
+    if not any(ch in os.path.basename(t.root) for ch in "#?%"):
+        # (a namesake with URL delimiters in its name could not be addressed by a raw request target: the campaigns pick
+        # "some servable file" from t.files and must be able to request it)
+        up = "/" + os.path.basename(t.root) + "/in-namesake.txt"
         mk = marker("MK", tag, up)
-        t.add_file(up, content(rng, 90, mk, "text"))
+        t.add_file(up, content(rng, 50, mk, "text"))
         t.markers[mk] = up
-    d = t.root
-    while d != "/" and len(d) > 1:
-        t.dirs.add(d)
-        d = os.path.dirname(d)
-    up = "/" + os.path.basename(t.root) + "/in-namesake.txt"
-    mk = marker("MK", tag, up)
-    t.add_file(up, content(rng, 50, mk, "text"))
-    t.markers[mk] = up
-    t.dirs.add("/" + os.path.basename(t.root))
+        t.dirs.add("/" + os.path.basename(t.root))
     # file metadata nobody creates on purpose but archives, backups and clock mishaps do: modification times before 1970,
     # at the epoch, on a 1st of January (zip's 1980-01-01), at the 32-bit limits, far in the future
     MTIMES = [-86400 * 200, -1, 0, 1, 315532800, 946684800, 1704067200, 1735689600, 2147483647, 2147483648, 4102444800, 4294967296, 253402300799]
